@@ -110,11 +110,11 @@ def fault_lists(prep, faults):
             out.append([3, k, faults.draw(len(FAULT_TYPES)), faults.draw(6)])
     else:
         for p in range(len(prep.ops) + 1):
-            out.append([p, faults.draw(2), 0, 0])
+            out.append([p, faults.draw(4), 0, 0])
         # the source raises at its k-th pull somewhere inside the history
         nkey = len(prep.src.items) if getattr(prep, "key", None) is not None else 0
         for k in range(len(prep.src.items) + 1 + nkey):
-            out.append([len(prep.ops), faults.draw(2), k + 1, faults.draw(len(FAULT_TYPES))])
+            out.append([len(prep.ops), faults.draw(4), k + 1, faults.draw(len(FAULT_TYPES))])
     return out
 
 
@@ -353,7 +353,17 @@ async def consumer_tee(prep, run, cut, via_handle, res, fault=None):
                 await children[c].aclose()
                 done[c] = True
                 check("child_close")
-        if via_handle:
+        if via_handle == 2:
+            async with handle:
+                pass
+            done = [True] * prep.n
+            check("handle_block_left")
+        elif via_handle == 3:
+            # the block of ``async with tee`` is left by a GeneratorExit (the async generator it is written in is closed)
+            await handle.__aexit__(GeneratorExit, GeneratorExit(), None)
+            done = [True] * prep.n
+            check("handle_block_left_by_generatorexit")
+        elif via_handle:
             await handle.aclose()
             done = [True] * prep.n
             check("handle_close")
@@ -450,7 +460,7 @@ async def consumer_groupby(prep, run, cut, res, fault=None):
 
 def run_handle(prep, st, ctx, out, sim):
     cut = st.faults.draw(len(prep.ops) + 1)
-    via = st.faults.draw(2)
+    via = st.faults.draw(4)  # 0 child by child | 1 handle.aclose() | 2 leaving ``async with handle`` | 3 ... by GeneratorExit
     nsrc = len(prep.src.items) + 1
     nkey = len(prep.src.items) if getattr(prep, "key", None) is not None else 0
     fk = st.faults.draw(nsrc + nkey + 1)
